@@ -123,7 +123,9 @@ pub fn gen(t: &mut Tape) -> Gen {
                 continue;
             }
             let mut cells = [false; 6];
-            let kmax = if is_enum { 4 } else { 6 };
+            // into_existing on an enum is only expandable with a quick return (`return expr` replaces the body)
+            let enum_ie = is_enum && t.chance(1, 4);
+            let kmax = if is_enum && !enum_ie { 4 } else { 6 };
             for k in 0..kmax {
                 cells[k] = t.chance(1, 2);
             }
@@ -146,7 +148,14 @@ pub fn gen(t: &mut Tape) -> Gen {
                 for k in ks {
                     expected.push(predict(k, f == 1, ty, err.as_deref(), self_ty));
                 }
-                instrs.push(TraitInstr { name, ty: ty.clone(), hint: None, err, params: vec![] });
+                let ie = ks_has_ie(&name);
+                let params = if (is_enum && ie) || t.chance(1, 10) {
+                    labels.push(if is_enum && ie { "enum-into-existing+return".into() } else { "quick-return".into() });
+                    vec![TParam::Return("make(@)".into())]
+                } else {
+                    vec![]
+                };
+                instrs.push(TraitInstr { name, ty: ty.clone(), hint: None, err, params });
             }
         }
     }
@@ -165,6 +174,10 @@ pub fn gen(t: &mut Tape) -> Gen {
         }
     };
     Gen { item: Item { attrs, name: "S".into(), generics: generics.into(), where_clause: String::new(), body }, expected, labels, nontrivial, generic_err }
+}
+
+fn ks_has_ie(name: &str) -> bool {
+    trait_name_cells(name).map_or(false, |(ks, _)| ks.iter().any(|k| *k == 4 || *k == 5))
 }
 
 fn diff(exp: &BTreeMap<Header, usize>, got: &BTreeMap<Header, usize>) -> (Vec<Header>, Vec<Header>) {
